@@ -31,7 +31,7 @@ def jobs(tier, seed):
                  expect=["C05/C13: a flat-XOR code is created exactly"]))
     for (k, m, hd) in tables():
         tag = "%d_%d_%d" % (k, m, hd)
-        J.append(Job("xor.table@" + tag, group="xor.table", props=["C05"], layer="L2", strength="P#",
+        J.append(Job("xor.table@" + tag, group="xor.table", props=["C05", "C01", "C02", "C03"], layer="L2", strength="P#",
                      title="flat-XOR table: data-side == parity-side == golden snapshot; minimum distance >= hd (symbolic data word of weight < hd)",
                      functions=["init_xor_hd_code"], repo_src=[XC, XH], harness=["harness/x_tables.c"],
                      defines={"MODE": 2, "K": k, "M": m, "HD": hd}, case={"k": k, "m": m, "hd": hd}, unwind=34,
